@@ -43,14 +43,14 @@ Proof. apply Forall_forall. intros x Hx. apply repeat_spec in Hx. subst. reflexi
 
 (** ** interleave(bytes_t&) *)
 Definition il_table : list nat :=
-  fold_left (fun idxs i => set_nth idxs (il_index i) i) (seq 0 C.interleaver_k) (repeat C.interleaver_k C.interleaver_k).
+  fold_left (fun idxs i => set_nth idxs (il_index i) i) (seq 0 ConstsModulator.interleaver_k) (repeat ConstsModulator.interleaver_k ConstsModulator.interleaver_k).
 
 Lemma il_table_is_spec : il_table = pi_inverse_table.
 Proof. vm_compute. reflexivity. Qed.
 
 Lemma il_index_lt i : (il_index i < 368)%nat.
-Proof. unfold il_index. change (N.of_nat C.interleaver_k) with 368.
-  pose proof (N.mod_upper_bound (C.interleaver_f1 * N.of_nat i + C.interleaver_f2 * N.of_nat i * N.of_nat i) 368). lia. Qed.
+Proof. unfold il_index. change (N.of_nat ConstsModulator.interleaver_k) with 368.
+  pose proof (N.mod_upper_bound (ConstsModulator.interleaver_f1 * N.of_nat i + ConstsModulator.interleaver_f2 * N.of_nat i * N.of_nat i) 368). lia. Qed.
 
 Lemma interleave_bytes_spec data : all_bytes data -> length data = 46%nat ->
   bytes_bits (interleave_bytes data) = spec_interleave (bytes_bits data)
@@ -64,11 +64,11 @@ Proof. intros Hd Ld.
     destruct (assign_bit_index_spec a (il_index c) (get_bit_index data c) Ha) as [E1 [A1 L1]]; [lia|].
     split; [|split; [exact A1 | lia]].
     rewrite E1, E, set_nth_map. f_equal. apply get_bit_index_spec. exact Hd. }
-  assert (H0 : R (repeat 0 (C.interleaver_k / 8)) (repeat C.interleaver_k C.interleaver_k)).
-  { change (C.interleaver_k / 8)%nat with 46%nat. change C.interleaver_k with 368%nat.
+  assert (H0 : R (repeat 0 (ConstsModulator.interleaver_k / 8)) (repeat ConstsModulator.interleaver_k ConstsModulator.interleaver_k)).
+  { change (ConstsModulator.interleaver_k / 8)%nat with 46%nat. change ConstsModulator.interleaver_k with 368%nat.
     split; [|split; [apply all_bytes_zeros | apply repeat_length]].
     rewrite bytes_bits_zeros, map_repeat'. unfold f. rewrite nth_overflow by (rewrite bytes_bits_length; lia). reflexivity. }
-  pose proof (rel_fold _ _ R Hstep (seq 0 C.interleaver_k) _ _ H0) as [E [Ha La]].
+  pose proof (rel_fold _ _ R Hstep (seq 0 ConstsModulator.interleaver_k) _ _ H0) as [E [Ha La]].
   split; [|split; assumption].
   unfold interleave_bytes. rewrite E. fold il_table. rewrite il_table_is_spec. reflexivity. Qed.
 
